@@ -164,7 +164,7 @@ pub fn check_case(case: &Case, ctx: &mut Ctx) {
                     .attrs
                     .iter()
                     .map(|a| squash(&a.to_token_stream().to_string()))
-                    .filter(|a| a != "#[codec(compact)]")
+                    .filter(|a| a != "#[codec(compact)]" && a.starts_with("#[codec("))
                     .collect();
                 if !other_attrs.is_empty() {
                     ctx.violation("C18/field-attr", format!("{what}: field {i} carries {other_attrs:?}"), replay(), size);
